@@ -41,6 +41,15 @@ fn fmt_comma_lines(_k: &str, v: &str) -> String {
     v.split(',').map(|s| s.trim().to_string()).collect::<Vec<_>>().join(",\n")
 }
 
+/// formatters whose output lines after the first START WITH A BLANK (audit D3): `join(",\n ")` and
+/// `join(",\n\t")`; the blank belongs to the formatter's line and is kept behind the indentation
+fn fmt_comma_lines_sp(_k: &str, v: &str) -> String {
+    v.split(',').map(|s| s.trim().to_string()).collect::<Vec<_>>().join(",\n ")
+}
+fn fmt_comma_lines_tab(_k: &str, v: &str) -> String {
+    v.split(',').map(|s| s.trim().to_string()).collect::<Vec<_>>().join(",\n\t")
+}
+
 pub const REL_FIELDS: [&str; 12] = [
     "Build-Depends",
     "Build-Depends-Indep",
@@ -76,6 +85,189 @@ fn fmt_control(k: &str, v: &str) -> Option<String> {
     Some(v.to_string())
 }
 
+/// Reference reader for relationship fields, written from Debian Policy 7.1 and the grammar of
+/// property C10 (`Spec/RelGrammar.lean`, `FieldA.WF`), not from the crates: is the text a well-formed
+/// relationship field?  Segments separated by `,`; a segment is empty, a substitution variable
+/// `${id(:id)*}`, or alternatives separated by `|`; an alternative is
+/// `name[:qual] [(op version)] [[!arch …]] [<[!]profile …>]…` with the five operators
+/// `<<` `<=` `=` `>=` `>>`, identifiers over `[A-Za-z0-9.+~-]`, a version `[epoch:]body` whose epoch
+/// is a number below 2^32; blanks (space, tab, CR, LF) are allowed between the parts, not inside
+/// `name:qual` and not between `!` and its name.
+pub fn ref_rel_wf(text: &str) -> bool {
+    struct P<'a> {
+        s: &'a [u8],
+        i: usize,
+    }
+    impl<'a> P<'a> {
+        fn gap(&mut self) -> bool {
+            let st = self.i;
+            while self.i < self.s.len() && matches!(self.s[self.i], b' ' | b'\t' | b'\r' | b'\n') {
+                self.i += 1;
+            }
+            self.i > st
+        }
+        fn peek(&self) -> Option<u8> {
+            self.s.get(self.i).copied()
+        }
+        fn eat(&mut self, c: u8) -> bool {
+            if self.peek() == Some(c) {
+                self.i += 1;
+                true
+            } else {
+                false
+            }
+        }
+        fn ident(&mut self) -> Option<&'a [u8]> {
+            let st = self.i;
+            while self.i < self.s.len() && (self.s[self.i].is_ascii_alphanumeric() || b"-.+~".contains(&self.s[self.i])) {
+                self.i += 1;
+            }
+            if self.i > st {
+                Some(&self.s[st..self.i])
+            } else {
+                None
+            }
+        }
+        /// `[!]name` terms up to the closing character; terms after the first need a blank in front
+        fn terms(&mut self, close: u8) -> bool {
+            let mut first = true;
+            loop {
+                let g = self.gap();
+                if self.eat(close) {
+                    return true;
+                }
+                if !first && !g {
+                    return false;
+                }
+                self.eat(b'!');
+                if self.ident().is_none() {
+                    return false;
+                }
+                first = false;
+            }
+        }
+        fn version(&mut self) -> bool {
+            let mut pieces = vec![];
+            loop {
+                match self.ident() {
+                    Some(p) => pieces.push(p),
+                    None => return false,
+                }
+                if !self.eat(b':') {
+                    break;
+                }
+            }
+            if pieces.len() == 1 {
+                return true;
+            }
+            // with an epoch: a number below 2^32
+            let e = pieces[0];
+            if !e.iter().all(|c| c.is_ascii_digit()) {
+                return false;
+            }
+            let d: Vec<u8> = e.iter().copied().skip_while(|c| *c == b'0').collect();
+            d.len() < 10 || (d.len() == 10 && d.as_slice() <= b"4294967295".as_slice())
+        }
+        fn relation(&mut self) -> bool {
+            if self.ident().is_none() {
+                return false;
+            }
+            if self.eat(b':') && self.ident().is_none() {
+                return false;
+            }
+            // 0: nothing yet, 1: version seen, 2: architectures seen, 3: profiles
+            let mut stage = 0;
+            loop {
+                let save = self.i;
+                self.gap();
+                match self.peek() {
+                    Some(b'(') if stage == 0 => {
+                        self.i += 1;
+                        self.gap();
+                        let st = self.i;
+                        while self.i < self.s.len() && b"<>=".contains(&self.s[self.i]) {
+                            self.i += 1;
+                        }
+                        if ![&b"<<"[..], b"<=", b"=", b">=", b">>"].contains(&&self.s[st..self.i]) {
+                            return false;
+                        }
+                        self.gap();
+                        if !self.version() {
+                            return false;
+                        }
+                        self.gap();
+                        if !self.eat(b')') {
+                            return false;
+                        }
+                        stage = 1;
+                    }
+                    Some(b'[') if stage <= 1 => {
+                        self.i += 1;
+                        if !self.terms(b']') {
+                            return false;
+                        }
+                        stage = 2;
+                    }
+                    Some(b'<') => {
+                        self.i += 1;
+                        if !self.terms(b'>') {
+                            return false;
+                        }
+                        stage = 3;
+                    }
+                    _ => {
+                        self.i = save;
+                        return true;
+                    }
+                }
+            }
+        }
+    }
+    for seg in text.split(',') {
+        let mut p = P { s: seg.as_bytes(), i: 0 };
+        p.gap();
+        if p.i == p.s.len() {
+            continue;
+        }
+        if p.s[p.i..].starts_with(b"${") {
+            p.i += 2;
+            loop {
+                if p.ident().is_none() {
+                    return false;
+                }
+                if !p.eat(b':') {
+                    break;
+                }
+            }
+            if !p.eat(b'}') {
+                return false;
+            }
+        } else {
+            if !p.relation() {
+                return false;
+            }
+            loop {
+                let save = p.i;
+                p.gap();
+                if p.eat(b'|') {
+                    p.gap();
+                    if !p.relation() {
+                        return false;
+                    }
+                } else {
+                    p.i = save;
+                    break;
+                }
+            }
+        }
+        p.gap();
+        if p.i != p.s.len() {
+            return false;
+        }
+    }
+    true
+}
+
 /// a formatter that rewrites its value: the comma-separated items trimmed, sorted, joined by ", "
 fn fmt_sort_items(_k: &str, v: &str) -> String {
     let mut items: Vec<String> = v.split(',').map(|s| s.trim().to_string()).collect();
@@ -107,6 +299,8 @@ fn wrap_para(c: &Cfg, p: &Paragraph) -> Paragraph {
         "i" => Some(&fmt_identity),
         "u" => Some(&fmt_comma_lines),
         "s" => Some(&fmt_sort_items),
+        "j" => Some(&fmt_comma_lines_sp),
+        "t" => Some(&fmt_comma_lines_tab),
         _ => None,
     };
     p.wrap_and_sort(c.ind, c.imm, c.max, ecmp, fmt)
@@ -117,6 +311,8 @@ fn wrap_entry(c: &Cfg, e: &Entry) -> Entry {
         "i" => Some(&fmt_identity),
         "u" => Some(&fmt_comma_lines),
         "s" => Some(&fmt_sort_items),
+        "j" => Some(&fmt_comma_lines_sp),
+        "t" => Some(&fmt_comma_lines_tab),
         _ => None,
     };
     e.wrap_and_sort(c.ind, c.imm, c.max, fmt)
@@ -144,10 +340,13 @@ fn wrap_doc(c: &Cfg, d: &Deb822) -> Deb822 {
 
 type Items = Vec<(String, String)>;
 
-/// what one application returns: printed text, live content, tree dump
+/// what one application returns: printed text, live content, tree dump; `commented`: per field,
+/// whether the value holds a COMMENT or ERROR token (then `Entry::wrap_and_sort` does not call the
+/// formatter, theorem `C07_fmt_cases`)
 struct Out1 {
     text: String,
     content: Vec<Items>,
+    commented: Vec<Vec<bool>>,
     dump: String,
 }
 
@@ -163,6 +362,18 @@ fn first_entry(p: &Paragraph) -> Option<Entry> {
     p.syntax().children().find_map(Entry::cast)
 }
 
+fn entry_commented(e: &Entry) -> bool {
+    e.syntax().children_with_tokens().any(|c| {
+        let k = format!("{:?}", c.kind());
+        k == "COMMENT" || k == "ERROR"
+    })
+}
+
+/// one flag per item of `Paragraph::items()` (the fields that have a name)
+fn para_commented(p: &Paragraph) -> Vec<bool> {
+    p.syntax().children().filter_map(Entry::cast).filter(|e| e.key().is_some()).map(|e| entry_commented(&e)).collect()
+}
+
 fn apply(level: &str, c: &Cfg, o: &Obj) -> Obj {
     match (level, o) {
         ("d", Obj::D(d)) => Obj::D(wrap_doc(c, d)),
@@ -170,6 +381,22 @@ fn apply(level: &str, c: &Cfg, o: &Obj) -> Obj {
         ("e", Obj::E(e)) => Obj::E(wrap_entry(c, e)),
         _ => Obj::Empty,
     }
+}
+
+/// the object the same call would be made on after printing and re-reading the result
+fn reread(level: &str, text: &str) -> Option<Obj> {
+    let d = Deb822::from_str(text).ok()?;
+    Some(match level {
+        "d" => Obj::D(d),
+        "p" => match d.paragraphs().next() {
+            Some(p) => Obj::P(p),
+            None => Obj::Empty,
+        },
+        _ => match d.paragraphs().next().and_then(|p| first_entry(&p)) {
+            Some(e) => Obj::E(e),
+            None => Obj::Empty,
+        },
+    })
 }
 
 fn describe(o: &Obj) -> Out1 {
@@ -182,14 +409,25 @@ fn describe(o: &Obj) -> Out1 {
         s
     }
     match o {
-        Obj::D(d) => Out1 { text: d.to_string(), content: d.paragraphs().map(|p| p.items().collect()).collect(), dump: dump(d) },
-        Obj::P(p) => Out1 { text: p.to_string(), content: vec![p.items().collect()], dump: format!("(ROOT {})", dump(p)) },
+        Obj::D(d) => Out1 {
+            text: d.to_string(),
+            content: d.paragraphs().map(|p| p.items().collect()).collect(),
+            commented: d.paragraphs().map(|p| para_commented(&p)).collect(),
+            dump: dump(d),
+        },
+        Obj::P(p) => Out1 {
+            text: p.to_string(),
+            content: vec![p.items().collect()],
+            commented: vec![para_commented(p)],
+            dump: format!("(ROOT {})", dump(p)),
+        },
         Obj::E(e) => Out1 {
             text: e.to_string(),
             content: vec![e.key().map(|k| vec![(k, e.value())]).unwrap_or_default()],
+            commented: vec![e.key().map(|_| vec![entry_commented(e)]).unwrap_or_default()],
             dump: format!("(ROOT (PARAGRAPH {}))", dump(e)),
         },
-        Obj::Empty => Out1 { text: String::new(), content: vec![], dump: "(ROOT)".to_string() },
+        Obj::Empty => Out1 { text: String::new(), content: vec![], commented: vec![], dump: "(ROOT)".to_string() },
     }
 }
 
@@ -199,6 +437,23 @@ fn nb_trim(v: &str) -> Vec<String> {
 
 fn comment_lines(text: &str) -> Vec<String> {
     text.split('\n').filter(|l| l.starts_with('#')).map(|l| l.to_string()).collect()
+}
+
+/// the output of the request's formatter for one field; `None`: no formatter, or the formatter is
+/// not called (value with a comment line), or (formatter `c`) the normalisation itself panics
+fn fmt_out(c: &Cfg, k: &str, v: &str, commented: bool) -> Option<String> {
+    if commented {
+        return None;
+    }
+    match c.fmt.as_str() {
+        "i" => Some(fmt_identity(k, v)),
+        "u" => Some(fmt_comma_lines(k, v)),
+        "s" => Some(fmt_sort_items(k, v)),
+        "j" => Some(fmt_comma_lines_sp(k, v)),
+        "t" => Some(fmt_comma_lines_tab(k, v)),
+        "c" => fmt_control(k, v),
+        _ => None,
+    }
 }
 
 pub fn handle(op: &str, a: &[&str]) -> Option<Resp> {
@@ -220,21 +475,33 @@ pub fn handle(op: &str, a: &[&str]) -> Option<Resp> {
                 _ => return None,
             };
             let before = describe(&start);
-            // control formatter: a relationship field with a version component above i32::MAX may make
-            // debversion's Version::cmp panic inside the sort (F-C12-1); which comparisons the sort
-            // makes is not modelled: both sides answer BIGNUM, the call is still made and a panic is
-            // reported under the open finding F-C07-8
+            let flag = |i: usize, j: usize| -> bool { before.commented.get(i).and_then(|p| p.get(j)).copied().unwrap_or(false) };
+            // the relationship fields the control formatter normalises: named as one of the twelve,
+            // no comment line inside (else the formatter is not called), read without error
+            let mut rel_parsed: Vec<(String, debian_control::lossless::relations::Relations)> = vec![];
             if c.fmt == "c" {
                 use debian_control::lossless::relations::Relations;
-                let big = before.content.iter().any(|p| {
-                    p.iter().any(|(k, v)| {
-                        REL_FIELDS.contains(&k.as_str()) && {
+                for (i, p) in before.content.iter().enumerate() {
+                    for (j, (k, v)) in p.iter().enumerate() {
+                        if REL_FIELDS.contains(&k.as_str()) && !flag(i, j) {
                             let (r, e) = Relations::parse_relaxed(v, true);
-                            e.is_empty() && crate::reledit::has_big_number(&r)
+                            if e.is_empty() {
+                                rel_parsed.push((v.clone(), r));
+                            }
                         }
-                    })
-                });
-                if big {
+                    }
+                }
+            }
+            // control formatter: debversion's Version::cmp panics when a comparison reaches a numeric
+            // version component above i32::MAX (F-C12-1). Which comparisons Rust's sort makes is not
+            // modelled: both sides answer BIGNUM exactly when every such field can be read by the
+            // accessors and in one of them two distinct elements of a list that gets sorted cannot be
+            // compared (`reledit::sort_may_panic`, model `Props.C07More.ctlBig`); otherwise no sort can
+            // panic on a number and the real result is compared. The call is still made and a panic is
+            // reported under the open finding F-C07-8
+            if c.fmt == "c" {
+                let verdicts: Vec<Option<bool>> = rel_parsed.iter().map(|(_, r)| crate::reledit::sort_may_panic(r)).collect();
+                if verdicts.iter().all(|v| v.is_some()) && verdicts.iter().any(|v| *v == Some(true)) {
                     let panicked = std::panic::catch_unwind(std::panic::AssertUnwindSafe(|| describe(&apply(level, &c, &start)).text)).is_err();
                     return Some(Resp::with(
                         "BIGNUM".to_string(),
@@ -242,12 +509,16 @@ pub fn handle(op: &str, a: &[&str]) -> Option<Resp> {
                     ));
                 }
             }
-            // a panic is a violation only inside the property's domain (error-free documents,
-            // indentation of at least one column)
-            // control formatter: a relationship field whose normalisation itself panics (an operator
-            // the accessors cannot read, `a (> 1)`) is outside the domain
-            let fmt_c_ok = c.fmt != "c" || before.content.iter().all(|p| p.iter().all(|(k, v)| fmt_control(k, v).is_some()));
-            let in_domain0 = errs.is_empty() && !s.contains('\r') && !matches!(c.ind, Indentation::Spaces(0)) && fmt_c_ok;
+            // The property's domain: error-free LF documents, an indentation of at least one column,
+            // and (control formatter) relationship fields that are well-formed relationship fields
+            // (Policy 7.1 / C10 grammar, decided by the reference reader `ref_rel_wf`, not by "did not
+            // panic") or that the relations parser refuses (those are left as they are). A field the
+            // parser reads without error but that is outside the grammar — an operator outside the
+            // five, `a (> 1)`, `a (1)`; an epoch above u32 — is outside the domain: there
+            // `Control::wrap_and_sort` may panic (theorem `C07_control_panic_iff`), model = code is
+            // still compared
+            let rel_ok = rel_parsed.iter().all(|(v, _)| ref_rel_wf(v));
+            let in_domain = errs.is_empty() && !s.contains('\r') && !matches!(c.ind, Indentation::Spaces(0)) && rel_ok;
             let run = std::panic::catch_unwind(std::panic::AssertUnwindSafe(|| {
                 let once = apply(level, &c, &start);
                 let o1 = describe(&once);
@@ -260,35 +531,25 @@ pub fn handle(op: &str, a: &[&str]) -> Option<Resp> {
                 Err(_) => {
                     return Some(Resp::with(
                         "PANIC".to_string(),
-                        if in_domain0 { Some("panic on an error-free document".to_string()) } else { None },
+                        if in_domain { Some("panic on an error-free document".to_string()) } else { None },
                     ))
                 }
             };
-            // the property's oracle, on error-free LF documents with an indentation of >= 1 column
-            let indent_ok = !matches!(c.ind, Indentation::Spaces(0));
             let mut fail = None;
-            if errs.is_empty() && !s.contains('\r') && indent_ok && fmt_c_ok {
-                // every paragraph and field kept; values keep their non-blank lines up to
-                // surrounding whitespace (no formatter / identity formatter) or are exactly the
-                // formatter's output
+            if in_domain {
                 // every paragraph and field kept: values keep their non-blank lines up to
-                // surrounding whitespace (no formatter / identity) or are the formatter's output
+                // surrounding whitespace (no formatter / identity / a value with a comment line, on
+                // which the formatter is not called) or are the formatter's output
                 type NF = (String, Vec<String>);
                 let norm_before: Vec<Vec<NF>> = before
                     .content
                     .iter()
-                    .map(|p| {
+                    .enumerate()
+                    .map(|(i, p)| {
                         p.iter()
-                            .map(|(k, v)| {
-                                let v2 = if c.fmt == "u" {
-                                    fmt_comma_lines(k, v)
-                                } else if c.fmt == "s" {
-                                    fmt_sort_items(k, v)
-                                } else if c.fmt == "c" {
-                                    fmt_control(k, v).unwrap_or_else(|| v.clone())
-                                } else {
-                                    v.clone()
-                                };
+                            .enumerate()
+                            .map(|(j, (k, v))| {
+                                let v2 = fmt_out(&c, k, v, flag(i, j)).unwrap_or_else(|| v.clone());
                                 (k.clone(), nb_trim(&v2))
                             })
                             .collect()
@@ -384,16 +645,40 @@ pub fn handle(op: &str, a: &[&str]) -> Option<Resp> {
                         }
                     }
                 }
-                // continuation lines are indented by exactly the requested width
-                if fail.is_none() {
-                    if let (Indentation::Spaces(n), true) = (c.ind, c.fmt != "x") {
-                        for l in o1.text.split('\n') {
-                            if l.starts_with(' ') || l.starts_with('\t') {
-                                let w = l.len() - l.trim_start_matches(' ').len();
-                                if w != n as usize && !l.trim().is_empty() {
-                                    fail = Some(format!("continuation line {:?} is not indented by {}", l, n));
-                                }
+                // continuation lines are indented by exactly the requested width — the width given, or
+                // (FieldNameLength) the length of the name of the field the line belongs to —, FOLLOWED
+                // by the value line as it is: a line of a formatter's output that itself starts with a
+                // blank keeps it behind the indentation (theorem `C07_indent_text`; audit D3)
+                if fail.is_none() && c.fmt != "x" {
+                    let fmt_lines: Vec<String> = before
+                        .content
+                        .iter()
+                        .enumerate()
+                        .flat_map(|(i, p)| p.iter().enumerate().map(move |(j, kv)| (i, j, kv)))
+                        .filter_map(|(i, j, (k, v))| fmt_out(&c, k, v, flag(i, j)))
+                        .flat_map(|o| o.split('\n').skip(1).map(|l| l.to_string()).collect::<Vec<_>>())
+                        .collect();
+                    let mut width: Option<usize> = match c.ind {
+                        Indentation::Spaces(n) => Some(n as usize),
+                        Indentation::FieldNameLength => None,
+                    };
+                    for l in o1.text.split('\n') {
+                        if l.starts_with(' ') || l.starts_with('\t') {
+                            if l.trim().is_empty() {
+                                continue;
                             }
+                            let n = match width {
+                                Some(n) => n,
+                                None => continue,
+                            };
+                            let ok = l.len() >= n
+                                && l.as_bytes()[..n].iter().all(|b| *b == b' ')
+                                && (!(l[n..].starts_with(' ') || l[n..].starts_with('\t')) || fmt_lines.iter().any(|f| *f == l[n..]));
+                            if !ok {
+                                fail = Some(format!("continuation line {:?} is not indented by {}", l, n));
+                            }
+                        } else if !l.starts_with('#') && matches!(c.ind, Indentation::FieldNameLength) {
+                            width = l.find(':').map(|i| i);
                         }
                     }
                 }
@@ -404,6 +689,36 @@ pub fn handle(op: &str, a: &[&str]) -> Option<Resp> {
                 // idempotent
                 if fail.is_none() && o2.text != o1.text {
                     fail = Some(format!("second application changes the text: {:?} -> {:?}", o1.text, o2.text));
+                }
+                // ... also through the printed form: the result, printed, re-read and reformatted
+                // again, prints the same text (theorem `C07_reread_idempotent`)
+                if fail.is_none() {
+                    let again = std::panic::catch_unwind(std::panic::AssertUnwindSafe(|| {
+                        reread(level, &o1.text).map(|o| describe(&apply(level, &c, &o)).text)
+                    }));
+                    match again {
+                        Err(_) => fail = Some(format!("reformatting the re-read result panics: {:?}", o1.text)),
+                        Ok(None) => {}
+                        Ok(Some(t3)) => {
+                            // (a re-read paragraph does not own the comment lines in front of its first
+                            // field: they are read as comments of the document)
+                            let expect: String = if *level == "p" {
+                                let mut rest = o1.text.as_str();
+                                while rest.starts_with('#') {
+                                    rest = match rest.find('\n') {
+                                        Some(i) => &rest[i + 1..],
+                                        None => "",
+                                    };
+                                }
+                                rest.to_string()
+                            } else {
+                                o1.text.clone()
+                            };
+                            if t3 != expect {
+                                fail = Some(format!("reformatting the re-read result changes the text: {:?} -> {:?}", o1.text, t3));
+                            }
+                        }
+                    }
                 }
             }
             Some(Resp::with(
@@ -541,7 +856,8 @@ pub fn generate_c07(tier: &str, seed: u64, out: &mut Out) {
         "Package: x\nDepends: a (>= 3000000000), a (>= 3000000001), b\n",
         "Package: x\nDepends: , a, , b,\n",
         "Package: x\nDepends:\nRecommends: \n",
-        "Source: s\nBuild-Depends: b,\n# a comment inside the field\n a\n",
+        // a comment line inside the field (indented: a `#` in column 0 inside a value is an error)
+        "Source: s\nBuild-Depends: b,\n # inside\n a\n",
         "Source: s\nUploaders: Doe, John <j@e>, B <b@e>\n",
         "Source: s\nBuild-Depends: a (>= 1) | b [i386]  <x>   ,c\nX-Other: kept  as is\n",
         "# lead\n\nPackage: p\nDepends: z | a, m\n\n# mid\n\nSource: s\n",
@@ -629,5 +945,166 @@ pub fn generate_c07(tier: &str, seed: u64, out: &mut Out) {
         let c = rng.pick(&cfgs).clone();
         let level = *rng.pick(&["d", "d", "p", "e"]);
         out.req("deb.wrap", &[level.to_string(), es(&text), c]);
+    }
+    // ---- blocks added after the audit of C07 (appended: the requests above keep their order) ----
+    // (O1) a value-changing formatter x a comment line inside the value: the formatter is not called
+    // on such a value (theorem C07_fmt_cases), its content and layout rules are those of the
+    // no-formatter path; fields without a comment in the same paragraph are still reformatted
+    for t in [
+        "A: y, x\n #c\n b\n",
+        "A: y, x\n #c\n b\nB: q, p\n",
+        "B: q, p\nA:\n # first\n y, x\n",
+        "A: y, x\n # last\n",
+        "Package: p\nDepends: z, a\n # why\n , m\n\nPackage: o\nDepends: d, c\n",
+        "Source: s\nDepends: a,\n #c\n b\n",
+        "Source: s\nBuild-Depends: b,\n # inside\n a\nUploaders: B <b@e>, A <a@e>\n",
+        "Source: s\nUploaders: B <b@e>,\n # between\n A <a@e>\nBuild-Depends: z, a\n",
+        "Package: x\nDepends: a (>= 3000000000),\n # big, but the field is not normalised\n a (>= 3000000001)\n",
+        "Package: x\nDepends: a (> 1),\n # operator outside the five, not normalised\n b\n",
+    ] {
+        for cfg in [
+            "2/1/n/n/n/c", "4/0/20/n/n/c", "f/0/n/n/n/c", "2/0/n/n/n/u", "4/1/79/k/p/u", "1/0/n/n/n/s", "4/0/n/v/n/s", "f/1/n/k/n/s",
+            "2/0/n/n/n/i", "3/0/n/n/n/j", "3/1/n/n/n/t", "2/0/n/n/n/n",
+        ] {
+            for level in ["d", "p", "e"] {
+                if cfg.ends_with("/c") && level == "e" {
+                    continue;
+                }
+                out.req("deb.wrap", &[level.to_string(), es(t), cfg.to_string()]);
+            }
+        }
+    }
+    // (D3) formatters whose output lines after the first start with a blank: join(",\n ") = `j`,
+    // join(",\n\t") = `t`: the blank is part of the formatter's line and is kept behind the indentation
+    for t in [
+        "A: a, b, c\n",
+        "A: a,b\nB: x\n",
+        "A:\n a,\n b\n",
+        "Depends: x,\n    y,\n\tz\n",
+        "Ab: c, d\n\nPackage: z, y\nX: 1\n",
+        "A: a\n",
+        "A: a,\n",
+        "A: , ,\n",
+    ] {
+        for ind in ["1", "2", "4", "f"] {
+            for imm in ["0", "1"] {
+                for mx in ["n", "10", "79"] {
+                    for f in ["j", "t"] {
+                        for level in ["d", "p", "e"] {
+                            out.req("deb.wrap", &[level.to_string(), es(t), format!("{}/{}/{}/n/n/{}", ind, imm, mx, f)]);
+                        }
+                    }
+                }
+            }
+        }
+    }
+    // (D1) a CR inside a value on the formatter path: CR line ends are outside the stated domain (LF
+    // documents), the oracle is off; MODEL = CODE is compared (closed witness C07_cr_formatter_witness)
+    for t in [
+        "A: b\r c\rB: d\r",
+        "A: b\r c\n",
+        "A: b,\r c,\r d\n",
+        "A:\r b\r c\n",
+        "A: b\r\n c\r\nB: d\r\n",
+        "A: b, c\r",
+        "A: b\n# c\rB: d\n",
+        "Source: s\nDescription: b\r c\n",
+        "Source: s\nUploaders: B <b@e>,\r A <a@e>\n",
+        "Source: s\nBuild-Depends: b,\r a\n\nPackage: p\nDepends: z\r ,y\n",
+        "Package: b\r\nDepends: x,\r\n y\r\n\r\nPackage: a\r\n",
+    ] {
+        for cfg in ["2/0/n/n/n/i", "2/0/n/n/n/u", "2/0/n/n/n/c", "4/1/79/k/p/i", "f/1/10/n/n/u", "1/0/20/n/n/c", "2/0/n/n/n/n", "2/0/n/n/n/s", "2/0/n/n/n/j"] {
+            for level in ["d", "p", "e"] {
+                if cfg.ends_with("/c") && level == "e" {
+                    continue;
+                }
+                out.req("deb.wrap", &[level.to_string(), es(t), cfg.to_string()]);
+            }
+        }
+    }
+    // (D2) relationship fields the relations parser reads without error but that are not well-formed
+    // relationship fields: operators outside the five (`>`, `<`, `==`, none), epochs above u32 —
+    // Control / Source / Binary::wrap_and_sort panic there (theorem C07_control_panic_iff); outside
+    // the domain, MODEL = CODE. Next to them the same documents with the five operators.
+    // (F-C07-8) numbers above i32::MAX: BIGNUM exactly when two elements that get sorted cannot be
+    // compared; a single big number, distinct names, an epoch that decides: the real result
+    let odd_rel = [
+        "a (> 1)",
+        "a (< 1)",
+        "a (1)",
+        "a (== 1)",
+        "b, a (> 1)",
+        "b | a (< 2), c",
+        "a (>> 1), b (<< 2), c (= 3), d (>= 4), e (<= 5)",
+        "a (>= 5000000000:1)",
+        "a (>= 5000000000:1), a (>= 5000000001:1)",
+        "a (>= 4294967295:1), a (>= 4294967296:1)",
+        "a (>= 4294967295:1), a (>= 4294967294:1)",
+        "a (>= 3000000000)",
+        "b (>= 3000000000), a (>= 3000000001)",
+        "a (>= 3000000000), a (>= 3000000001)",
+        "a (>= 3000000000), a (>= 1)",
+        "a (>= 2147483647), a (>= 1)",
+        "a (>= 2147483648), a (>= 1)",
+        "a (>= 3000000000:1), a (>= 1)",
+        "a (>= 1:3000000000), a (>= 1:1)",
+        "a (>= 1.3000000000), a (>= 2.1)",
+        "a (>= 1.3000000000), a (>= 1.1)",
+        "a (>= 0~20240101120000)",
+        "a (>= 0~20240101120000), b (>= 0~20240101120001)",
+        "a (>= 0~20240101120000) | a (>= 0~20240101120001)",
+        "z | a (>= 3000000000), y | a (>= 3000000000)",
+        "a (>= 3000000000) | z, a (>= 3000000000) | y",
+        "a (<< 3000000000), a (>= 3000000000)",
+        "a (>= 3000000000), a (> 1)",
+        "a (> 1), b (>= 3000000000), b (>= 3000000001)",
+        "a (>= 1-3000000000), a (>= 1-3000000001)",
+        "a (>= 00000000002), a (>= 1)",
+    ];
+    for r in odd_rel.iter() {
+        for t in [
+            format!("Package: x\nDepends: {}\n", r),
+            format!("Source: s\nBuild-Depends: {}\nUploaders: B, A\n\nPackage: p\nDepends: c, b\n", r),
+            format!("Source: s\nBuild-Depends: b, a\n\nPackage: p\nRecommends: {}\n", r),
+            format!("Package: x\nDepends:\n {}\n", r.replace(", ", ",\n ")),
+            format!("Package: x\nX-Depends: {}\nConflicts: {}\n", r, r),
+        ] {
+            for cfg in ["2/0/n/n/n/c", "4/1/20/n/n/c", "f/0/79/n/n/c"] {
+                for level in ["d", "p"] {
+                    out.req("deb.wrap", &[level.to_string(), es(&t), cfg.to_string()]);
+                }
+            }
+        }
+    }
+    {
+        // seeded: relation generator output with its operators rewritten (`>=` -> `>`, `<<` -> `<`,
+        // `(= ` -> `(== `, operator dropped), versions given a big epoch or a big number
+        let nodd = if thorough { 6_000 } else { 600 };
+        for _ in 0..nodd {
+            let f = crate::rel::random_field(&mut rng);
+            if f.contains("\n\n") || f.trim().is_empty() {
+                continue;
+            }
+            let f = match rng.below(8) {
+                0 => f.replace(">=", ">"),
+                1 => f.replace("<<", "<"),
+                2 => f.replace("(=", "(=="),
+                3 => f.replace("(>= ", "(").replace("(<< ", "("),
+                4 => f.replace("(>= ", "(>= 5000000000:"),
+                5 => f.replace("(>= ", "(>= 3000000000."),
+                6 => f.replace("(>= ", "(>= 0~20240101120000+"),
+                _ => f.replace("(<= ", "(<= 4294967296:").replace("(>> ", "(>> 4294967295:"),
+            };
+            let folded = f.replace('\n', "\n ");
+            let t = format!(
+                "{}: {}\n{}: {}\n",
+                rng.pick(&["Package", "Source"]),
+                rng.pick(&["b", "a"]),
+                rng.pick(&["Depends", "Build-Depends", "Breaks", "Pre-Depends"]),
+                folded.trim()
+            );
+            let cfg = format!("{}/{}/{}/n/n/c", rng.pick(&["1", "2", "4", "f"]), rng.pick(&["0", "1"]), rng.pick(&["n", "20", "79"]));
+            out.req("deb.wrap", &[rng.pick(&["d", "p"]).to_string(), es(&t), cfg]);
+        }
     }
 }
